@@ -18,13 +18,19 @@
                               additivity say that such a cut changes neither code nor count);
    * `file_mode_is_library` — with a FILE argument the code and the count are exactly what the file
                               entry point of the library returns under those options.
+   * `stdin_equals_file`    — stdin and FILE give the same result, for EVERY flag list and EVERY program text: the stdin loop (one
+                              library call per `getline` piece, counts added up) ends with the same exit status as the one call on the
+                              whole text, and on success with the same instance (buffer, offset, options) and the same count to print —
+                              by induction over the lines from `stdinLoop_plain` / `stdinLoop_counting`, which rest on
+                              AL.Lemmas.Split.call_split / count_split (one call or two, any mode, any buffer, no size hypotheses).
   Checked on the executable (not proved): what `-p` prints (the printers are in src/parser.c), the
-  value `-r` prints, the stdin/FILE equality on whole programs.
+  value `-r` prints.
 -/
 import AL.Impl.Cli
 import AL.Properties.C12
+import AL.Lemmas.CallSplit
 namespace AL.Properties.C20
-open AL AL.Impl AL.Gen
+open AL AL.Impl AL.Gen AL.Lemmas AL.Lemmas.Split
 
 theorem parseFlags_usage (st : Parsed) (fs : List Flag) (h : st.usage = true) : parseFlags st fs = st := by
   cases fs with
@@ -152,5 +158,315 @@ theorem file_mode_is_library (st : Parsed) (prog : Option Str) (hnc : ¬ st.boun
 
 /-- non-vacuity: `-t --nasm-mov-imm` is STRICT SIB handling with NASM mov-immediate handling -/
 example : C12.abs (applyLong (parseFlags { a := createInternal } [.t, .nasmMovImm])).opt = ⟨.nasm, false, false⟩ := by decide
+
+/-- the stored offset is a C `int` -/
+def Norm (a : Inst) : Prop := toInt32 (toU32 a.offset) = a.offset
+
+theorem toInt32_mod (x : Nat) : toInt32 (x % 2 ^ 32) = toInt32 x := by
+  unfold toInt32
+  simp only [Nat.mod_mod]
+
+theorem norm_toInt32 (x : Nat) : toInt32 (toU32 (toInt32 x)) = toInt32 x := by
+  rw [← toInt32_mod x, toU32_toInt32 _ (Nat.mod_lt _ (by decide))]
+
+theorem plain_ok_norm (lfo : LineFnOf) (a : Inst) (t : Str) (h : (asmAssembleStrWith lfo a t).2 = .ok ()) :
+    Norm (asmAssembleStrWith lfo a t).1 := by
+  rw [plain_eq] at h ⊢
+  simp only at h ⊢
+  split at h
+  · cases h
+  · rename_i heq
+    simp only [heq]
+    exact norm_toInt32 _
+
+theorem plain_nil (lfo : LineFnOf) (a : Inst) (hn : Norm a) : asmAssembleStrWith lfo a [] = (a, .ok ()) := by
+  rw [plain_eq]
+  unfold codesOf
+  simp only [List.length_nil, Nat.zero_add]
+  have : items (lfo a.opt) 1 [] = ⟨[], none⟩ := rfl
+  rw [this]
+  simp only [runCodes, outcome]
+  unfold Norm at hn
+  rw [hn]
+
+theorem counting_ok_norm (lfo : LineFnOf) (a : Inst) (t : Str) (c : Int) (h : (asmCountingChunksWith lfo a t c true).2.1 = .ok ()) :
+    Norm (asmCountingChunksWith lfo a t c true).1 := by
+  rw [counting_eq] at h ⊢
+  simp only at h ⊢
+  split at h
+  · cases h
+  · rename_i heq
+    simp only [heq]
+    exact norm_toInt32 _
+
+theorem counting_nil (lfo : LineFnOf) (a : Inst) (c : Int) (hn : Norm a) : asmCountingChunksWith lfo a [] c true = (a, .ok (), some 0) := by
+  rw [counting_eq]
+  unfold codesOf
+  simp only [List.length_nil, Nat.zero_add]
+  have : items (lfo a.opt) 1 [] = ⟨[], none⟩ := rfl
+  rw [this]
+  simp only [runCodes, outcome, countSetup]
+  unfold Norm at hn
+  rw [hn]
+
+theorem counting_some (lfo : LineFnOf) (a : Inst) (t : Str) (c : Int) : (asmCountingChunksWith lfo a t c true).2.2 ≠ none := by
+  rw [counting_eq]
+  simp only
+  have hk := runCodes_keeps (codesOf lfo a.opt t) { a := countSetup a c, bufPos := toU32 a.offset, brks := some 0 }
+  have := hk.brksSome (by simp)
+  split <;> exact this
+
+/-! ### `getline` pieces -/
+
+theorem getlines_line (l rest : Str) (h : ∀ c ∈ l, c ≠ 10) : getlines (l ++ 10 :: rest) = (l ++ [10]) :: getlines rest := by
+  induction l with
+  | nil =>
+    simp only [List.nil_append]
+    rw [getlines]
+    cases getlines rest <;> simp
+  | cons c l ih =>
+    have hc : c ≠ 10 := h c List.mem_cons_self
+    have ih' := ih (fun x hx => h x (List.mem_cons_of_mem _ hx))
+    simp only [List.cons_append]
+    rw [getlines, ih']
+    simp [hc]
+
+theorem getlines_last (l : Str) (h : ∀ c ∈ l, c ≠ 10) (hne : l ≠ []) : getlines l = [l] := by
+  induction l with
+  | nil => exact absurd rfl hne
+  | cons c l ih =>
+    have hc : c ≠ 10 := h c List.mem_cons_self
+    cases l with
+    | nil => rfl
+    | cons d l' =>
+      have ih' := ih (fun x hx => h x (List.mem_cons_of_mem _ hx)) (by simp)
+      rw [getlines, ih']
+      simp [hc]
+
+theorem lf_split (t : Str) : (∀ c ∈ t, c ≠ 10) ∨ ∃ l rest, t = l ++ 10 :: rest ∧ (∀ c ∈ l, c ≠ 10) := by
+  induction t with
+  | nil => left; simp
+  | cons c t ih =>
+    by_cases hc : c = 10
+    · right; exact ⟨[], t, by simp [hc], by simp⟩
+    · rcases ih with h | ⟨l, rest, h1, h2⟩
+      · left; intro x hx; rcases List.mem_cons.mp hx with rfl | hx; exact hc; exact h x hx
+      · right; refine ⟨c :: l, rest, by simp [h1], ?_⟩
+        intro x hx; rcases List.mem_cons.mp hx with rfl | hx; exact hc; exact h2 x hx
+
+theorem eol10 : eolCh 10 = true := by decide
+
+/-- **the stdin loop is the one call, plain and chunk-fitting mode**: feeding the `getline` pieces of ANY text one library call
+    each succeeds exactly when one call on the whole text does, and then leaves the same instance -/
+theorem stdinLoop_plain (b : Int) : ∀ (n : Nat) (t : Str) (a : Inst) (tot : Int), t.length ≤ n → Norm a →
+    ((stdinLoop false b a tot (getlines t)).2.1 = true ↔ (asmAssembleStr a t).2 = .ok ()) ∧
+    ((asmAssembleStr a t).2 = .ok () → (stdinLoop false b a tot (getlines t)).1 = (asmAssembleStr a t).1) ∧
+    (stdinLoop false b a tot (getlines t)).2.2 = tot := by
+  intro n
+  induction n with
+  | zero =>
+    intro t a tot hl hn
+    have : t = [] := List.eq_nil_of_length_eq_zero (Nat.le_zero.mp hl)
+    subst this
+    have := plain_nil assembleLine a hn
+    unfold asmAssembleStr
+    simp [getlines, stdinLoop, this]
+  | succ n ih =>
+    intro t a tot hl hn
+    rcases lf_split t with hno | ⟨l, rest, rfl, hno⟩
+    · by_cases hne : t = []
+      · subst hne
+        have := plain_nil assembleLine a hn
+        unfold asmAssembleStr
+        simp [getlines, stdinLoop, this]
+      · rw [getlines_last t hno hne]
+        unfold stdinLoop
+        simp only [Bool.false_eq_true, if_false]
+        rcases hw : asmAssembleStr a t with ⟨a', res⟩
+        cases res with
+        | error e => simp
+        | ok u => simp [stdinLoop]
+    · rw [getlines_line l rest hno]
+      have hlen : rest.length ≤ n := by simp only [List.length_append, List.length_cons] at hl; omega
+      have hloc := assembleLine_local a.opt
+      unfold stdinLoop
+      simp only [Bool.false_eq_true, if_false]
+      unfold asmAssembleStr at *
+      rcases hp : asmAssembleStrWith assembleLine a l with ⟨a1, res1⟩
+      cases res1 with
+      | error er =>
+        have h1 := call_split_err assembleLine a l [] 10 eol10 hloc er (by rw [hp])
+        have h2 := call_split_err assembleLine a l rest 10 eol10 hloc er (by rw [hp])
+        rw [h1, h2, hp]
+        simp
+      | ok u =>
+        have hn1 : Norm a1 := by have := plain_ok_norm assembleLine a l (by rw [hp]); rw [hp] at this; exact this
+        have h1 := call_split assembleLine a l [] 10 eol10 hloc (by rw [hp])
+        have h2 := call_split assembleLine a l rest 10 eol10 hloc (by rw [hp])
+        rw [hp] at h1 h2
+        simp only [plain_nil assembleLine a1 hn1] at h1
+        rw [h1]
+        simp only
+        obtain ⟨i1, i2, i3⟩ := ih rest a1 tot hlen hn1
+        rw [h2]
+        rcases hw2 : asmAssembleStrWith assembleLine a1 rest with ⟨a2, res2⟩
+        rw [hw2] at i1 i2
+        cases res2 with
+        | error e => simp at i1 ⊢; exact ⟨i1, i3⟩
+        | ok u => simp at i1 i2 ⊢; exact ⟨i1, i2, i3⟩
+
+
+/-- **the stdin loop is the one call, counting mode**: same success, same instance, and the printed total is the count of the one call -/
+theorem stdinLoop_counting (b : Int) : ∀ (n : Nat) (t : Str) (a : Inst) (tot : Int), t.length ≤ n → Norm a →
+    ((stdinLoop true b a tot (getlines t)).2.1 = true ↔ (asmCountingChunks a t b true).2.1 = .ok ()) ∧
+    ((asmCountingChunks a t b true).2.1 = .ok () →
+      (stdinLoop true b a tot (getlines t)).1 = (asmCountingChunks a t b true).1 ∧
+      (stdinLoop true b a tot (getlines t)).2.2 = tot + ((asmCountingChunks a t b true).2.2).getD 0) := by
+  intro n
+  induction n with
+  | zero =>
+    intro t a tot hl hn
+    have : t = [] := List.eq_nil_of_length_eq_zero (Nat.le_zero.mp hl)
+    subst this
+    have := counting_nil assembleLine a b hn
+    unfold asmCountingChunks
+    simp [getlines, stdinLoop, this]
+  | succ n ih =>
+    intro t a tot hl hn
+    rcases lf_split t with hno | ⟨l, rest, rfl, hno⟩
+    · by_cases hne : t = []
+      · subst hne
+        have := counting_nil assembleLine a b hn
+        unfold asmCountingChunks
+        simp [getlines, stdinLoop, this]
+      · rw [getlines_last t hno hne]
+        unfold stdinLoop
+        simp only [if_true]
+        have hs := counting_some assembleLine a t b
+        unfold asmCountingChunks at *
+        rcases hw : asmCountingChunksWith assembleLine a t b true with ⟨a', res, cnt⟩
+        rw [hw] at hs
+        cases res with
+        | error e => simp
+        | ok u =>
+          cases cnt with
+          | none => exact absurd rfl hs
+          | some k => simp [stdinLoop]
+    · rw [getlines_line l rest hno]
+      have hlen : rest.length ≤ n := by simp only [List.length_append, List.length_cons] at hl; omega
+      have hloc := assembleLine_local a.opt
+      unfold stdinLoop
+      simp only [if_true]
+      unfold asmCountingChunks at *
+      have hs1 := counting_some assembleLine a l b
+      rcases hp : asmCountingChunksWith assembleLine a l b true with ⟨a1, res1, c1⟩
+      rw [hp] at hs1
+      cases res1 with
+      | error er =>
+        have h1 := count_split_err assembleLine a b l [] 10 eol10 hloc er (by rw [hp])
+        have h2 := count_split_err assembleLine a b l rest 10 eol10 hloc er (by rw [hp])
+        rw [h1, h2, hp]
+        simp
+      | ok u =>
+        cases c1 with
+        | none => exact absurd rfl hs1
+        | some k1 =>
+          have hn1 : Norm a1 := by have := counting_ok_norm assembleLine a l b (by rw [hp]); rw [hp] at this; exact this
+          have h1 := count_split assembleLine a b l [] 10 eol10 hloc (by rw [hp])
+          have h2 := count_split assembleLine a b l rest 10 eol10 hloc (by rw [hp])
+          rw [hp] at h1 h2
+          simp only [counting_nil assembleLine a1 b hn1, Option.map_some, Option.getD_some, Int.zero_add] at h1
+          rw [h1]
+          simp only
+          obtain ⟨i1, i2⟩ := ih rest a1 (tot + k1) hlen hn1
+          rw [h2]
+          have hs2 := counting_some assembleLine a1 rest b
+          rcases hw2 : asmCountingChunksWith assembleLine a1 rest b true with ⟨a2, res2, c2⟩
+          rw [hw2] at i1 i2 hs2
+          cases res2 with
+          | error e => simp at i1 ⊢; exact i1
+          | ok u =>
+            cases c2 with
+            | none => exact absurd rfl hs2
+            | some k2 =>
+              simp at i1 i2 ⊢
+              refine ⟨i1, i2.1, ?_⟩
+              rw [i2.2]; omega
+
+
+/-! ### asmline: stdin and FILE -/
+
+theorem parseFlag_offset (st : Parsed) (f : Flag) : (parseFlag st f).a.offset = st.a.offset := by
+  cases f <;> simp only [parseFlag, applySetter] <;> (try rfl)
+  all_goals (split <;> (try rfl))
+  all_goals (unfold setChunkSize; split <;> rfl)
+
+theorem parseFlags_offset (fs : List Flag) (st : Parsed) : (parseFlags st fs).a.offset = st.a.offset := by
+  induction fs generalizing st with
+  | nil => rfl
+  | cons f fs ih =>
+    unfold parseFlags
+    split
+    · rfl
+    · rw [ih, parseFlag_offset]
+
+theorem applyLong_offset (st : Parsed) : (applyLong st).offset = st.a.offset := by
+  unfold applyLong applySetter
+  simp only
+  split <;> split <;> split <;> split <;> rfl
+
+/-- **stdin and FILE give the same result**: for EVERY flag list, EVERY program text and either answer of the output file, asmline
+    reading the program from stdin (one library call per `getline` piece, totals added up) ends with the same exit status as asmline
+    reading it from FILE (one library call), and when that status is 0 with the same instance — buffer, offset, options — and the same
+    count to print -/
+theorem stdin_equals_file (flags : List Flag) (t : Str) (binOk : Bool) :
+    (cliRun flags true (some t) binOk).exit = (cliRun flags false (some t) binOk).exit ∧
+    ((cliRun flags false (some t) binOk).exit = 0 →
+      (cliRun flags true (some t) binOk).a = (cliRun flags false (some t) binOk).a ∧
+      (cliRun flags true (some t) binOk).count = (cliRun flags false (some t) binOk).count) := by
+  unfold cliRun
+  generalize hst : parseFlags { a := createInternal } flags = st
+  simp only
+  cases hu : st.usage with
+  | true => simp
+  | false =>
+    simp only [Bool.false_eq_true, if_false]
+    have hn : Norm (applyLong st) := by
+      unfold Norm
+      rw [applyLong_offset, ← hst, parseFlags_offset]
+      decide
+    unfold assemblePhase
+    simp only [if_true, Bool.false_eq_true, if_false, Option.getD_some]
+    by_cases hc : st.boundary > 0
+    · simp only [hc, decide_true, if_true]
+      obtain ⟨i1, i2⟩ := stdinLoop_counting st.boundary t.length t (applyLong st) 0 (Nat.le_refl _) hn
+      have hs := counting_some assembleLine (applyLong st) t st.boundary
+      unfold asmCountingChunksFile
+      unfold asmCountingChunks at *
+      rcases hw : asmCountingChunksWith assembleLine (applyLong st) t st.boundary true with ⟨a2, res, cnt⟩
+      rw [hw] at i1 i2 hs
+      cases res with
+      | error e =>
+        simp at i1
+        simp [i1, hw]
+      | ok u =>
+        cases cnt with
+        | none => exact absurd rfl hs
+        | some k =>
+          simp at i1 i2
+          simp [i1, i2.1, i2.2, hw]
+    · simp only [hc, decide_false, Bool.false_eq_true, if_false]
+      obtain ⟨i1, i2, i3⟩ := stdinLoop_plain st.boundary t.length t (applyLong st) 0 (Nat.le_refl _) hn
+      unfold asmAssembleFile
+      rcases hw : asmAssembleStr (applyLong st) t with ⟨a2, res⟩
+      rw [hw] at i1 i2
+      cases res with
+      | error e =>
+        simp at i1
+        simp [i1, hw]
+      | ok u =>
+        simp at i1 i2
+        simp [i1, i2, hw]
+
 
 end AL.Properties.C20
